@@ -245,15 +245,14 @@ class IndentationFeatures(object):
 
         Number of points in indentation curve
         """
-        if self.is_valid:
-            a_ind = self.datay_apr
-            num = a_ind.shape[0]
-            if num < 600:
-                value = False
-            else:
-                value = True
+        # The size of the dataset does not depend on a fit (or on whether
+        # any fit property has been set already).
+        a_ind = self.datay_apr
+        num = a_ind.shape[0]
+        if num < 600:
+            value = False
         else:
-            value = np.nan
+            value = True
         return value
 
     def feat_con_apr_flatness(self):
